@@ -508,7 +508,34 @@ def unit_bounded_logging(U):
     U.bounded_result("C06.bounded.debug_logging", "region() / limit= results with DEBUG logging switched on == the statement's set", "7 features, 7 intervals x {overlap, within} x 4 entry points, loggers at DEBUG", cases, fails)
 
 
-UNITS = [("schema", unit_schema), ("bounded.debug_logging", unit_bounded_logging), ("limit", unit_limit), ("region", unit_region), ("sqlmodel", unit_sqlmodel_validation), ("bounded", unit_bounded), ("bounded.straddle", unit_bounded_straddle)]
+def unit_bounded_after_update(U):
+    """Bounded: region() / limit= see what update() added on the SAME FeatureDB object - also features on a seqid the database
+    did not have before, also when region() / seqids() were called before the update"""
+    import gffutils.feature as F_
+    fails, cases = [], 0
+    mk = lambda i, sq, a, b: F_.Feature(seqid=sq, source="s", featuretype="exon", start=a, end=b, strand="+", attributes={"ID": [i]})
+    for warm in ("region", "seqids", "nothing"):
+        db = gffutils.create_db([mk("a1", "chr1", 10, 20), mk("a2", "chr1", 100, 200)], ":memory:")
+        if warm == "region":
+            list(db.region(("chr1", 1, 50)))
+            list(db.region(("chr2", 1, 50)))
+        elif warm == "seqids":
+            list(db.seqids())
+        db.update([mk("b1", "chr2", 10, 20), mk("b2", "chr2", 500, 600), mk("a3", "chr1", 15, 30)], make_backup=False)
+        for (sq, qs, qe), exp in ((("chr2", 1, 1000), ["b1", "b2"]), (("chr2", 15, 15), ["b1"]), (("chr1", 1, 50), ["a1", "a3"])):
+            for name, fn in (("region(tuple)", lambda: db.region((sq, qs, qe))), ("region(string)", lambda: db.region("%s:%d-%d" % (sq, qs, qe))),
+                             ("region(kwargs)", lambda: db.region(seqid=sq, start=qs, end=qe)), ("all_features(limit)", lambda: db.all_features(limit=(sq, qs, qe)))):
+                cases += 1
+                got = sorted(f.id for f in fn())
+                if got != exp:
+                    fails.append({"case": {"before the update": warm, "call": name, "interval": [sq, qs, qe]}, "expected": exp, "observed": got})
+        cases += 1
+        if sorted(db.seqids()) != ["chr1", "chr2"]:
+            fails.append({"case": {"before the update": warm, "call": "seqids()"}, "expected": ["chr1", "chr2"], "observed": sorted(db.seqids())})
+    U.bounded_result("C06.bounded.after_update", "region / limit / seqids after update() on the same object == the statement on the updated contents", "3 warm-ups x 3 intervals x 4 entry points", cases, fails)
+
+
+UNITS = [("schema", unit_schema), ("bounded.after_update", unit_bounded_after_update), ("bounded.debug_logging", unit_bounded_logging), ("limit", unit_limit), ("region", unit_region), ("sqlmodel", unit_sqlmodel_validation), ("bounded", unit_bounded), ("bounded.straddle", unit_bounded_straddle)]
 
 
 def replay_file(doc):
